@@ -247,4 +247,6 @@ func (p *MultilineAction) resetLogBuf() {
 	p.eventBuf = p.eventBuf[:1]
 	p.eventSize = 0
 	p.cutOffEvent = false
+	// the line being skipped is over (or abandoned on timeout): the next event starts a new line
+	p.skipNextEvent = false
 }
